@@ -6,6 +6,7 @@ mod api;
 mod build;
 mod coding;
 mod d_lzma;
+mod d_stream;
 mod io;
 mod kernel;
 mod oracle;
@@ -98,6 +99,31 @@ fn main() {
             }
             finish(rep, &a);
         }
+        "stream" => {
+            let mut rep = Report::new("stream");
+            let n = a.num("streams", 20) as usize;
+            let ns = a.num("syms", 60) as usize;
+            let tr = a.get("trace");
+            match a.str("mode", "c05").as_str() {
+                "c05" => d_stream::run_c05(&prop, seed, n, ns, tr, &mut rep),
+                "c15" => d_stream::run_c15(&prop, seed, n, ns, tr, &mut rep),
+                "c16" => d_stream::run_c16(&prop, seed, n, ns, tr, &mut rep),
+                m => panic!("mode {}", m),
+            }
+            finish(rep, &a);
+        }
+        "constants" => {
+            #[cfg(lzma_rs_verif)]
+            {
+                let c = lzma_rs::verif::constants();
+                println!(
+                    "{}",
+                    serde_json::json!({"MaxReq": c.max_required_input, "TmpMax": c.max_tmp_len, "MinHdr": c.min_header_len, "MaxHdr": c.max_header_len, "Pre": c.start_bytes})
+                );
+            }
+            #[cfg(not(lzma_rs_verif))]
+            println!("{{}}");
+        }
         "replay" => {
             let f = &a.pos[0];
             let v: serde_json::Value = serde_json::from_str(&std::fs::read_to_string(f).expect("read replay")).expect("json");
@@ -106,6 +132,7 @@ fn main() {
             let mut rep = Report::new("replay");
             match case["kind"].as_str().unwrap_or("") {
                 "lzma" => d_lzma::replay_value(case, &prop, &mut rep),
+                "stream" => d_stream::replay_value(case, &prop, &mut rep),
                 k => {
                     eprintln!("unknown case kind {}", k);
                     std::process::exit(2);
